@@ -41,7 +41,7 @@ func C20() *runner.Property {
 		CaseTimeout: 180e9,
 		Cases: func(tier string, seed int64) []runner.Case {
 			r := rng.New(uint64(seed) ^ 0xC20)
-			k := 1
+			k := 3
 			if tier == "thorough" {
 				k = 150
 			}
